@@ -586,8 +586,14 @@ class Server(utils.EventEmitter):
                 raise
         else:
             # No specific handler registered
-            if att_pdu.op_code in att.ATT_REQUESTS:
-                # Invoke the generic handler
+            if att_pdu.op_code in att.ATT_REQUESTS or (
+                not att_pdu.is_command
+                and att_pdu.op_code & 1 == 0
+                and att_pdu.op_code != att.Opcode.ATT_HANDLE_VALUE_CONFIRMATION
+            ):
+                # A request that we know about but don't support, or that we don't
+                # know about: invoke the generic handler (unsupported commands are
+                # ignored, unsupported requests must be answered)
                 self.on_att_request(bearer, att_pdu)
             else:
                 # Just ignore
